@@ -60,7 +60,7 @@ func (t vhStdTx) GetSigners() ([][]byte, error) {
 	}
 	return t.signers, nil
 }
-func (t vhStdTx) GetPubKeys() ([]cryptotypes.PubKey, error)              { return nil, nil }
+func (t vhStdTx) GetPubKeys() ([]cryptotypes.PubKey, error)            { return nil, nil }
 func (t vhStdTx) GetSignaturesV2() ([]signingtypes.SignatureV2, error) { return nil, nil }
 
 type vhNotStdTx struct{}
